@@ -95,12 +95,16 @@ def isDigit (c : Char) : Bool := 48 ≤ c.toNat && c.toNat ≤ 57
 /-- value of a string of decimal digits (unbounded) -/
 def digitsVal (s : Str) : Nat := s.foldl (fun acc c => acc * 10 + (c.toNat - 48)) 0
 
+/-- big.Int's scanSign: one optional leading `+` or `-` -/
+def splitSign : Str → Bool × Str
+  | '-' :: r => (true, r)
+  | '+' :: r => (false, r)
+  | s => (false, s)
+
 /-- big.Int.SetString(s, 10): optional sign, at least one digit, nothing else (no `_`: base ≠ 0); `-0` is 0 -/
 def parseBig (s : Str) : Outcome Int :=
-  let (neg, ds) := match s with
-    | '-' :: r => (true, r)
-    | '+' :: r => (false, r)
-    | _ => (false, s)
+  let neg := (splitSign s).1
+  let ds := (splitSign s).2
   if ds = [] then .err "no digits"
   else if ds.all isDigit then .ok (if neg then -(digitsVal ds : Int) else digitsVal ds)
   else .err "invalid"
